@@ -27,7 +27,8 @@ RULE = ("K-inject: every (axis, direction) of UniformPlaneSource (thorough: also
         "along the axis, homogeneous background out of (eps_r, mu_r) = (1,1), (2.25,1), (1.5,2), (1,1.5), (3,1.5) (quick: one "
         "dielectric/vacuum, one MAGNETIC background, one source with a delayed-start OnOffSwitch (start_after_periods=3), one "
         "scene with dispersive (ADE) arrays allocated — Lorentz background the source sits in, or a dispersive slab elsewhere — "
-        "where the stored H-side profile is also compared with the E-side profile); every source carries a non-zero "
+        "where the stored H-side profile is also compared with the E-side profile); normalize_by_energy True and False (both in every run, in backgrounds with eps_r != 1 and "
+        "mu_r != 1, in K and in the oracle); every source carries a non-zero "
         "WaveCharacter.phase_shift (+-pi/2, pi, random of both signs), >= 15 cells per wavelength in the medium, diagonal polarisation declared through fixed_E_ or fixed_H_polarization_vector "
         "(equal rates), PoyntingFluxDetector planes behind and in "
         "front, CW and pulse: time-integrated backward/forward power < 1e-3; quick: 2 of the 6 direction cases from the "
@@ -65,6 +66,7 @@ def gen_inject(rng, axis, direction, thorough, kind="uniform"):
     c["radius_cells"] = rng.uniform(2.2, 3.4)
     c["seed"] = rng.np_seed()
     c["phase"] = gen_phase(rng)
+    c["normalize"] = rng.chance(0.5)       # normalize_by_energy of the source
     # non-default OnOffSwitch: update_E/update_H then go through adjust_time_step_by_on_off (and `+ 0.5` for H)
     c["switch"] = rng.choice(["default", "delayed", "interval2"])
     if c["switch"] == "delayed":
@@ -156,7 +158,7 @@ def build_plane_scene(c, time_steps=30, detectors=None, pml=2, spacing=50e-9, wa
         else:
             switch = f.OnOffSwitch()
         kw = dict(partial_grid_shape=tuple(shp), wave_character=wave, direction=c["direction"], temporal_profile=prof,
-                  static_amplitude_factor=c["amp"], name="src", normalize_by_energy=normalize, switch=switch)
+                  static_amplitude_factor=c["amp"], name="src", normalize_by_energy=bool(normalize and c.get("normalize", True)), switch=switch)
         kw["fixed_H_polarization_vector" if c["use_h"] else "fixed_E_polarization_vector"] = tuple(c["pol"])
         if c["kind"] == "uniform":
             src = f.UniformPlaneSource(**kw)
@@ -215,12 +217,17 @@ def oracle_incident(c, sc):
         # array axes in ascending order: (a, b) ascending unless the propagation axis is y, where (a, b) = (z, x)
         g = hv.T if a > b else hv
         prof = np.expand_dims(g, axis=ax)
+    # the transverse profile passes through linear_interpolated_indexing at integer points (four coincident corners of
+    # weight 1, sum / (4 + 1e-8)); invisible after the energy normalisation, a factor 1 - 2.5e-9 without it
+    if c["widths"] is None:      # (the non-uniform path interpolates on physical coordinates, exactly)
+        prof = prof * (4.0 / (4.0 + 1e-8))
     E = prof[None] * e_pol[:, None, None, None]
     H = prof[None] * h_pol[:, None, None, None]
     energy = 0.5 * (E ** 2 / ie).sum(axis=0) + 0.5 * (H ** 2 / im).sum(axis=0)
-    root = np.sqrt(energy.sum())
-    E, H = E / root, H / root
-    H = H / np.sqrt(ie / im)
+    if c.get("normalize", True):          # normalize_by_energy
+        root = np.sqrt(energy.sum())
+        E, H = E / root, H / root
+    H = H / np.sqrt(ie / im)               # impedance matching, with or without the energy normalisation
     # Yee time offsets: E_c sits half a cell along c, H_c half a cell along the two other axes; travel = -x.k / v
     dt = float(sc.config.time_step_duration)
     if c["widths"] is None:
@@ -365,7 +372,8 @@ def k_inject(ctx, c, sample=False):
     ctx.case(sample=c if sample else None, nontrivial=(c["axis"], c["direction"], c["seed"]),
              **{f"axis{c['axis']}{c['direction']}": True, "kind": c["kind"], "tier": c["tier"], "along": c["along"],
                 "grid": "nonuniform" if c["widths"] else "uniform", "profile": c["profile"], "pol_given": "H" if c["use_h"] else "E",
-                "complex_fields": c["complex"], "k0_is_0": c["k0"] == 0, "switch": c.get("switch", "default")})
+                "complex_fields": c["complex"], "k0_is_0": c["k0"] == 0, "switch": c.get("switch", "default"),
+                "normalize_by_energy": c.get("normalize", True)})
 
 
 # ------------------------------------------------------------------------------------------------ K-line
@@ -447,7 +455,7 @@ MEDIA = [(1.0, 1.0), (2.25, 1.0), (1.5, 2.0), (1.0, 1.5), (3.0, 1.5)]     # homo
 
 
 def gen_oracle(rng, axis, direction, profile, kind="uniform", medium=None, delayed=False, use_h=None, pol=None,
-               dispersive=None, phase=None):
+               dispersive=None, phase=None, normalize=None):
     th = rng.uniform(0.5, 1.1) * rng.choice([1.0, -1.0])      # diagonal polarisation
     own = [0.0, 0.0, 0.0]
     own[(axis + 1) % 3], own[(axis + 2) % 3] = float(np.cos(th)), float(np.sin(th))
@@ -462,6 +470,8 @@ def gen_oracle(rng, axis, direction, profile, kind="uniform", medium=None, delay
     own_phase = gen_phase(rng)
     c["phase"] = own_phase if phase is None else float(phase)
     c["dispersive"] = dispersive
+    own_norm = rng.chance(0.5)
+    c["normalize"] = own_norm if normalize is None else bool(normalize)      # normalize_by_energy
     # dielectric AND magnetic homogeneous backgrounds: the injected E/H ratio must be the impedance sqrt(mu/eps) of the
     # medium, which differs from the dielectric-only value exactly when mu_r != 1
     c["eps_r"], c["mu_r"] = medium if medium is not None else rng.choice(MEDIA)
@@ -573,9 +583,10 @@ def oracle_case(ctx, c):
     ctx.extra.setdefault("oracle_ratios", []).append({"axis": c["axis"], "direction": c["direction"], "kind": c["kind"],
                                                       "profile": c["profile"], "eps_r": c["eps_r"], "mu_r": c["mu_r"], "switch": c.get("switch", "default"),
                                                       "use_h": c["use_h"], "phase": round(c.get("phase", 0.0), 3),
-                                                      "dispersive": c.get("dispersive"), "ratio": ratio, "steps": steps})
+                                                      "dispersive": c.get("dispersive"), "normalize": c.get("normalize", True), "ratio": ratio,
+                                                      "steps": steps})
     ctx.case(nontrivial=("oracle", c["axis"], c["direction"], c["profile"], c["kind"]), oracle=c["kind"] + "/" + c["profile"],
-             oracle_medium=f"eps{c['eps_r']}/mu{c['mu_r']}", oracle_switch=c.get("switch", "default"), oracle_pol_given="H" if c["use_h"] else "E", oracle_dispersive=str(c.get("dispersive")),
+             oracle_medium=f"eps{c['eps_r']}/mu{c['mu_r']}", oracle_switch=c.get("switch", "default"), oracle_pol_given="H" if c["use_h"] else "E", oracle_dispersive=str(c.get("dispersive")), oracle_normalize_by_energy=c.get("normalize", True),
              **{f"oracle_axis{c['axis']}{c['direction']}": True})
     if not (fwd > 0) or not ratio < limit:
         ctx.violation(c, oracle_fails(c) or f"ratio {ratio:.3e}")
@@ -591,7 +602,10 @@ def run(ctx):
     for i, (a, d) in enumerate(SIX):
         # quick: one of the six directions (from the seed) uses the Gaussian source instead of the uniform one
         kind = "gauss" if (not ctx.thorough and (a, d) == order[5]) else "uniform"
-        k_inject(ctx, gen_inject(rng, a, d, ctx.thorough, kind=kind), sample=i < 2)
+        ci = gen_inject(rng, a, d, ctx.thorough, kind=kind)
+        if i < 2:     # both values of normalize_by_energy in a background with eps_r != 1 and mu_r != 1, in every run
+            ci.update(normalize=(i == 1), eps_r=[2.25, 3.0][i], mu_r=1.5)
+        k_inject(ctx, ci, sample=i < 2)
         if ctx.thorough:
             for _ in range(3):
                 k_inject(ctx, gen_inject(rng, a, d, True))
@@ -617,9 +631,12 @@ def run(ctx):
         c1 = gen_oracle(rng, a1, d1, "cw", medium=rng.choice(MEDIA[:2]))
         oracle_case(ctx, c1)
         # magnetic background; polarisation declared the other way (E- vs H-given) than in the first scene
-        oracle_case(ctx, gen_oracle(rng, a2, d2, "pulse", medium=rng.choice(MEDIA[2:]), use_h=not c1["use_h"]))
+        # … and normalize_by_energy = False / True in backgrounds with eps_r != 1 AND mu_r != 1 (this scene and the next)
+        oracle_case(ctx, gen_oracle(rng, a2, d2, "pulse", medium=rng.choice([MEDIA[2], MEDIA[4]]), use_h=not c1["use_h"],
+                                    normalize=False))
         a3, d3 = order[2]
-        oracle_case(ctx, gen_oracle(rng, a3, d3, "cw", medium=MEDIA[0], delayed=True))   # switched source
+        oracle_case(ctx, gen_oracle(rng, a3, d3, "cw", medium=rng.choice([MEDIA[2], MEDIA[4]]), delayed=True,
+                                    normalize=True))   # switched source
         # dispersive arrays allocated (Lorentz background the source sits in, or a dispersive slab elsewhere): the source
         # takes its precomputed H-side profile; carrier phase from the quadrature / inverted / random set
         a4, d4 = order[3]
@@ -643,7 +660,8 @@ def search(ctx, hints):
                 first = h.get("profile", "cw")
                 for prof in (first, "pulse" if first == "cw" else "cw"):
                     o = gen_oracle(rng, h["axis"], h["direction"], prof, medium=med, delayed=sw, use_h=h.get("use_h", False),
-                                   pol=h.get("pol"), phase=h.get("phase"), dispersive=h.get("dispersive"))
+                                   pol=h.get("pol"), phase=h.get("phase"), dispersive=h.get("dispersive"),
+                                   normalize=h.get("normalize"))
                     o["amp"] = float(h.get("amp", 1.0))
                     todo.append(o)
                 if h.get("kind") == "gauss":      # the 10 % bound is a statement about the carrier wavelength: CW only
@@ -659,7 +677,7 @@ def search(ctx, hints):
         todo.append(gen_oracle(rng, a, d, "cw", kind="gauss"))
     for c in todo:
         key = (c["axis"], c["direction"], c["profile"], c["kind"], c["eps_r"], c["mu_r"], c.get("switch", "default"),
-               c["use_h"], c.get("dispersive"))
+               c["use_h"], c.get("dispersive"), c.get("normalize", True))
         if key in seen:
             continue
         seen.add(key)
